@@ -94,8 +94,9 @@ CLAIMED.update({
     'C15': dict(
         text='is_remote_exception, get_remote_traceback, RemoteTraceback, _rebuild_exception, RemoteException.__init__/__reduce__ are proved against record-level contracts '
              '(class, args, traceback, cause, text); the k-hop statement is an induction whose base and step (forwarded: identical text; re-raised: contains, with explicit '
-             'witnesses) are discharged by z3. The EnsembleError member re-wrapping is outside the by-value model and is covered by a bounded runtime stand-in (labelled).',
-        technique='contract-based deductive verification: pyvc VCs + hop-induction lemma over strings (z3 seq); bounded stand-in for one branch',
+             'witnesses) are discharged by z3. The EnsembleError branch is proved too: every bare-exception member is re-wrapped in its own slot, in place (loop invariant at a generic '
+             'member index), EnsembleError keeps and pickles the very results object; only the multi-hop composition of these for nested members stays a bounded runtime battery.',
+        technique='contract-based deductive verification: pyvc VCs + hop-induction lemma over strings (z3 seq); bounded battery only for the multi-hop composition of nested members',
         ref='DESIGN.md 3/C15'),
 })
 
